@@ -817,7 +817,7 @@ func coerce(c *column, v interface{}) (interface{}, *mysql.MySQLError) {
 		var b []byte
 		switch x := v.(type) {
 		case []byte:
-			b = append([]byte(nil), x...)
+			b = cloneBytes(x)
 		default:
 			b = []byte(valueText(v))
 		}
